@@ -21,7 +21,7 @@ from . import gen_scenario
 from .gen_scenario import CLIENT_SW
 
 # steer -> share of the generated cases (parts of 32)
-STEERS = {"gated_off": 6, "nic_toggle": 6, "acl": 6, "attack": 5, "none": 5, "sizes": 4}
+STEERS = {"gated_off": 5, "nic_toggle": 5, "acl": 5, "boot_stale": 5, "attack": 4, "none": 4, "sizes": 4}
 
 # category weights for ['cat', c, j] ops (envdrive.resolve_action picks the j-th action of that category)
 WEIGHTED_CATS = (
@@ -56,41 +56,83 @@ def action_index(meta: Dict, action: str, **options) -> Optional[int]:
     return None
 
 
+# Phrases are written as NAMED ops ['act', action name, full options]: c09.run_case resolves them to the index the
+# action has in this build of the scenario (resolve_named_ops), so a stored case / finding replay keeps its meaning when
+# the shared action list of gen_scenario grows or is reordered (an index-based replay of mine silently turned from
+# "corrupt the file" into "resume a service" that way and stopped guarding its fix).
+IDLE = ["act", "do-nothing", {}]
+
+
+def named(meta: Dict, action: str, **options) -> Optional[List]:
+    i = action_index(meta, action, **options)
+    return None if i is None else ["act", action, dict(meta["actions"][i]["options"])]
+
+
+def idles(n: int) -> List[List]:
+    return [list(IDLE) for _ in range(n)]
+
+
+def resolve_named_ops(ops: List[List], cfg: Dict, meta: Optional[Dict]) -> List[List]:
+    """['act', name, options] -> ['step', index]; an action the scenario's map does not hold is appended to it."""
+    out = []
+    for op in ops:
+        if op[0] != "act":
+            out.append(op)
+            continue
+        if meta is None:
+            continue
+        _, name, options = op
+        idx = next((i for i, a in enumerate(meta["actions"]) if a["action"] == name and a["options"] == options), None)
+        if idx is None:
+            apply_extras(cfg, meta, [{"action": name, "options": options, "cat": "named"}])
+            idx = len(meta["actions"]) - 1
+        out.append(["step", idx])
+    return out
+
+
 @st.composite
 def gated_off_phrase(draw, spec: Dict, host_index: int) -> List[List]:
-    """scan(s) on one host -> wait for completion -> host leaves ON -> keep observing -> power on again -> observe."""
+    """[corrupt a file + OS scan ->] scan(s) on one host -> wait for completion -> host leaves ON -> keep observing ->
+    power on again -> observe."""
     _, meta = gen_scenario.build(spec)
     h = meta["hosts"][host_index]
     n = h["name"]
 
-    def idx(action, **o):
-        return action_index(meta, action, node_name=n, **o)
+    def act(action, **o):
+        return named(meta, action, node_name=n, **o)
 
+    ops: List[List] = []
+    if spec.get("os_scan_first"):
+        # the node-wide scan refreshes the visible health of files AND folders when it completes (node_scan_duration = 2
+        # with the defaults block): a corrupt file makes the folder's last-scanned health CORRUPT without a folder scan
+        pre = [act("node-file-corrupt", folder_name="docs"), act("node-os-scan")]
+        if draw(st.booleans()):
+            pre.reverse()
+        ops += pre + idles(draw(st.sampled_from([2, 3, 3, 4])))
     scans = {
-        "folder": idx("node-folder-scan", folder_name="docs"),
-        "file": idx("node-file-scan", folder_name="docs"),
-        "service": idx("node-service-scan"),
-        "app": idx("node-application-scan"),
-        "os": idx("node-os-scan"),
+        "folder": act("node-folder-scan", folder_name="docs"),
+        "file": act("node-file-scan", folder_name="docs"),
+        "service": act("node-service-scan"),
+        "app": act("node-application-scan"),
+        "os": act("node-os-scan"),
     }
     have = [k for k, v in scans.items() if v is not None]
     chosen = draw(st.lists(st.sampled_from(have), min_size=1, max_size=len(have), unique=True))
     if "folder" in have and "folder" not in chosen and draw(st.integers(0, 3)) > 0:
         chosen.append("folder")  # the only kind whose observation keeps its own memory: in 3 of 4 phrases
-    idle = 0
-    ops: List[List] = [["step", scans[k]] for k in chosen]
+    ops += [scans[k] for k in chosen]
     # a folder scan publishes after folder_scan_duration (3, or 1 with the defaults block) ticks, an OS scan after
     # node_scan_duration; 0..4 idle steps cover "completed" and, deliberately, "not yet completed"
-    ops += [["step", idle] for _ in range(draw(st.sampled_from([0, 2, 3, 3, 3, 4])))]
+    ops += idles(draw(st.sampled_from([0, 2, 3, 3, 3, 4])))
     leave = draw(st.sampled_from(["shutdown", "shutdown", "reset"]))
-    ops.append(["step", idx("node-shutdown" if leave == "shutdown" else "node-reset")])
+    ops.append(act("node-shutdown" if leave == "shutdown" else "node-reset"))
     # SHUTTING_DOWN / OFF (/ BOOTING after a node reset) while observed
-    ops += [["step", idle] for _ in range(draw(st.integers(2, 5)))]
+    ops += idles(draw(st.integers(2, 5)))
     if draw(st.booleans()):
-        ops.append(["step", idx("node-startup")])
+        ops.append(act("node-startup"))
         # BOOTING, then ON again: the published values are back
-        ops += [["step", idle] for _ in range(draw(st.integers(1, 4)))]
-    return [o for o in ops if o[1] is not None]
+        ops += idles(draw(st.integers(1, 4)))
+    return [o for o in ops if o is not None]
 
 
 def _setup_attack(spec: Dict, draw) -> None:
@@ -120,41 +162,72 @@ def _setup_attack(spec: Dict, draw) -> None:
     spec["net_dev_up"] = 0
 
 
+def _attacker(meta: Dict) -> str:
+    return next((h["name"] for h in meta["hosts"] if "data-manipulation-bot" in h["apps"]), meta["hosts"][-1]["name"])
+
+
 @st.composite
 def nic_toggle_phrase(draw, spec: Dict) -> List[List]:
     """While the attack is running every step: disable the NIC of the attacked (or the attacking) host, keep observing
     the disabled interface for 1-3 steps, enable it again, observe 1-3 quiet-or-not steps; two or three rounds, so that
     some disable lands in a step in which the interface has already captured frames."""
     _, meta = gen_scenario.build(spec)
-    flat = [h["name"] for h in meta["hosts"]]
-    srv = flat[0]
-    att = next((h["name"] for h in meta["hosts"] if "data-manipulation-bot" in h["apps"]), flat[-1])
-    ops: List[List] = [["step", 0] for _ in range(draw(st.integers(1, 5)))]  # port scan / connection stages pass
+    srv = meta["hosts"][0]["name"]
+    att = _attacker(meta)
+    ops: List[List] = idles(draw(st.integers(1, 5)))  # port scan / connection stages pass
     for _ in range(draw(st.integers(2, 3))):
         n = draw(st.sampled_from([srv, srv, att]))
-        dis = action_index(meta, "host-nic-disable", node_name=n, nic_num=1)
-        ena = action_index(meta, "host-nic-enable", node_name=n, nic_num=1)
+        dis = named(meta, "host-nic-disable", node_name=n, nic_num=1)
+        ena = named(meta, "host-nic-enable", node_name=n, nic_num=1)
         if dis is None or ena is None:
             continue
-        ops.append(["step", dis])
-        ops += [["step", 0] for _ in range(draw(st.integers(1, 3)))]
-        ops.append(["step", ena])
-        ops += [["step", 0] for _ in range(draw(st.integers(1, 3)))]
+        ops.append(dis)
+        ops += idles(draw(st.integers(1, 3)))
+        ops.append(ena)
+        ops += idles(draw(st.integers(1, 3)))
     return ops
 
 
 @st.composite
-def sessions_phrase(draw, spec: Dict) -> List[List]:
-    """Several remote logins onto one host in a row (remote_sessions counts 0..3, capped), then a log-off."""
+def boot_stale_phrase(draw, spec: Dict) -> List[List]:
+    """Per-step counters must be zero in a step in which nothing ran. Red executes the bot on the attacker host in every
+    step and acts BEFORE blue, so the step in which blue powers that host off has already counted executions (and, with a
+    green agent on it, file creations); then the host is off for a while and is started again: in the step in which it
+    finishes booting it is ON, nothing has run on it, and every per-step counter must read 0. One or two rounds."""
     _, meta = gen_scenario.build(spec)
-    login = action_index(meta, "node-session-remote-login", password="admin")
-    logoff = action_index(meta, "node-session-remote-logoff")
+    att = _attacker(meta)
+    ops: List[List] = idles(draw(st.integers(1, 3)))
+    for _ in range(draw(st.integers(1, 2))):
+        leave = draw(st.sampled_from(["node-shutdown", "node-shutdown", "node-reset"]))
+        ops.append(named(meta, leave, node_name=att))
+        ops += idles(draw(st.integers(1, 5)))  # shut-down duration 0..3 (+ boot after a reset)
+        if leave == "node-shutdown":
+            ops.append(named(meta, "node-startup", node_name=att))
+        ops += idles(draw(st.integers(2, 5)))  # start-up duration 0..3, then ON again and the attack resumes
+    return [o for o in ops if o is not None]
+
+
+@st.composite
+def sessions_phrase(draw, spec: Dict) -> List[List]:
+    """Several remote logins onto one host in a row (remote_sessions counts 0..3, capped), then a log-off; or, with
+    spec['long_off'], a local session on a host that is then off for longer than the 30-step session time-out."""
+    _, meta = gen_scenario.build(spec)
+    if spec.get("long_off"):
+        cmd = named(meta, "node-send-local-command")
+        if cmd is None:
+            return []
+        n = cmd[2]["node_name"]
+        ops = [cmd] + idles(1) + [named(meta, "node-shutdown", node_name=n)] + idles(32)
+        ops += [named(meta, "node-startup", node_name=n)] + idles(5)
+        return [o for o in ops if o is not None]
+    login = named(meta, "node-session-remote-login", password="admin")
+    logoff = named(meta, "node-session-remote-logoff")
     if login is None:
         return []
-    ops = [["step", login] for _ in range(draw(st.integers(2, 4)))]
-    ops += [["step", 0] for _ in range(draw(st.integers(0, 2)))]
+    ops = [list(login) for _ in range(draw(st.integers(2, 4)))]
+    ops += idles(draw(st.integers(0, 2)))
     if logoff is not None and draw(st.booleans()):
-        ops.append(["step", logoff])
+        ops.append(logoff)
     return ops
 
 
@@ -221,13 +294,11 @@ def acl_phrase(draw, spec: Dict, extras: List[Dict]) -> List[List]:
     occasional idle step in between."""
     if not extras:
         return []
-    _, meta = gen_scenario.build(spec)
-    base = len(meta["actions"])
     ops: List[List] = []
     for k in draw(st.lists(st.integers(0, len(extras) - 1), min_size=3, max_size=8)):
-        ops.append(["step", base + k])
+        ops.append(["act", extras[k]["action"], dict(extras[k]["options"])])
         if draw(st.integers(0, 3)) == 0:
-            ops.append(["step", 0])
+            ops += idles(1)
     return ops
 
 
@@ -237,8 +308,22 @@ def steered_spec(draw, steer: Optional[str] = None, **kw):
     if steer is None:
         steer = draw(st.sampled_from(list(STEERS)))
     o = spec["obs"]
-    if steer in ("attack", "nic_toggle"):
+    if steer in ("attack", "nic_toggle", "boot_stale"):
         _setup_attack(spec, draw)
+        if steer == "boot_stale":
+            # red executes the bot every step and before blue; the attacker host's applications, folder, files and
+            # per-step file-system counters are all observed; a green agent may add file creations on the same host
+            spec["agents"]["red"] = "periodic"
+            spec["agents"]["red_freq"] = 1
+            spec["agents"]["red_start"] = draw(st.integers(0, 1))
+            spec["agents"]["blue_last"] = True
+            spec["agents"]["green"] = max(spec["agents"]["green"], 1)
+            o["num_applications"] = 3
+            o["num_folders"] = max(o["num_folders"], 1)
+            o["num_files"] = max(o["num_files"], 1)
+            o["include_num_access"] = True
+            o["missing"] = False
+            spec["max_len"] = max(spec["max_len"], 28)
         if steer == "nic_toggle":
             # red acts in every step from step 0/1 on and BEFORE blue inside a step, so frames are captured by an
             # interface that blue disables later in the same step; NMNE and monitored traffic are both observed
@@ -260,6 +345,9 @@ def steered_spec(draw, steer: Optional[str] = None, **kw):
         flat = [h for z in spec["zones"] for h in z]
         flat[0]["off"] = flat[-1]["off"] = False  # both ends of the generated remote-login actions are up
         spec["acl_deny"] = False
+        if draw(st.integers(0, 3)) == 0:
+            spec["long_off"] = True  # local session, then the host is off for longer than the session time-out
+            spec["max_len"] = 45
     elif steer == "gated_off":
         # everything scan-gated and observed; the target host is ON, has a folder with a file and some software, and
         # takes 0..3 ticks to shut down (0 = straight to OFF)
@@ -276,6 +364,10 @@ def steered_spec(draw, steer: Optional[str] = None, **kw):
         if not h["sw"]:
             h["sw"] = ["ftp", "web"] if h["kind"] == "server" else ["browser", "dnsc"]
         spec["gated_host"] = hi
+        if draw(st.booleans()):
+            spec["os_scan_first"] = True
+            spec["defaults"] = {"folder_scan_duration": 1, "folder_restore_duration": 1, "node_scan_duration": 2,
+                                "service_fix_duration": 1, "service_restart_duration": 1}
     spec["steer"] = steer
     return spec
 
@@ -287,6 +379,10 @@ def case_strategy(draw, max_ops: int = 30, steer: Optional[str] = None, **kw):
     spec = draw(steered_spec(steer=steer, **kw))
     if spec["steer"] == "gated_off":
         head = draw(gated_off_phrase(spec, spec["gated_host"]))
+        tail = draw(ops_strategy(max(max_ops - len(head), 1), min_ops=0))
+        return {"src": "gen", "spec": spec, "ops": head + tail}
+    if spec["steer"] == "boot_stale":
+        head = draw(boot_stale_phrase(spec))
         tail = draw(ops_strategy(max(max_ops - len(head), 1), min_ops=0))
         return {"src": "gen", "spec": spec, "ops": head + tail}
     if spec["steer"] == "nic_toggle":
@@ -304,6 +400,6 @@ def case_strategy(draw, max_ops: int = 30, steer: Optional[str] = None, **kw):
         return case
     if spec["steer"] == "sizes":
         head = draw(sessions_phrase(spec))
-        tail = draw(ops_strategy(max(max_ops - len(head), 1), min_ops=0 if head else 1))
+        tail = draw(ops_strategy(max(min(max_ops, 30) - len(head), 1), min_ops=0 if head else 1))
         return {"src": "gen", "spec": spec, "ops": head + tail}
     return {"src": "gen", "spec": spec, "ops": draw(ops_strategy(max_ops))}
